@@ -312,12 +312,27 @@ def run_tlaps(module='DatesProof', mutate=None, timeout=300):
                     text = text.replace(mutate[0], mutate[1])
                 with open(os.path.join(d, f), 'w') as g:
                     g.write(text)
+        import signal
+        # tlapm in a process group of its own: the back-end provers it starts (z3) can outlive it when an obligation does not
+        # go through, so the whole group is killed once tlapm has answered
+        pr = subprocess.Popen(['tlapm', '--threads', '8', '--nofp', module + '.tla'], cwd=d, stdout=subprocess.PIPE,
+                              stderr=subprocess.STDOUT, start_new_session=True)
         try:
-            p = subprocess.run(['tlapm', '--threads', '8', '--nofp', module + '.tla'], cwd=d, stdout=subprocess.PIPE,
-                               stderr=subprocess.STDOUT, timeout=timeout)
+            outb, _ = pr.communicate(timeout=timeout)
         except (subprocess.TimeoutExpired, OSError) as e:
+            try:
+                os.killpg(pr.pid, signal.SIGKILL)
+            except OSError:
+                pass
+            pr.wait()
             return {'ok': False, 'obligations': 0, 'failed': -1, 'wall': time.time() - t0, 'detail': repr(e)}
-        out = p.stdout.decode('utf-8', 'replace')
+        finally:
+            try:
+                os.killpg(pr.pid, signal.SIGKILL)
+            except OSError:
+                pass
+        p = pr
+        out = outb.decode('utf-8', 'replace')
         m = re.search(r'All (\d+) obligations? proved', out)
         if m and p.returncode == 0:
             return {'ok': True, 'obligations': int(m.group(1)), 'failed': 0, 'wall': time.time() - t0, 'detail': ''}
